@@ -12,34 +12,40 @@ PROPS = {'C06': {'C06'}, 'C07': {'C07'}, 'C08': {'C08'}, 'C09': {'C09'},
 PLANS = {
     'C06': {'quick': [('frag', 9000), ('corrupt', 3000), ('random', 1000),
                       ('long', 300), ('threads', 400),
-                      ('long_threads', 150), ('huge_threads', 16)],
+                      ('long_threads', 150), ('huge_threads', 16),
+                      ('capacity', 24)],
             'thorough': [('frag', 220000), ('corrupt', 60000),
                          ('random', 20000), ('long', 8000),
                          ('threads', 12000), ('long_threads', 4000),
-                         ('huge_threads', 1500)]},
+                         ('huge_threads', 1500), ('capacity', 800)]},
     'C07': {'quick': [('frag', 8000), ('sweep', 1200), ('threads', 400),
-                      ('huge_threads', 16)],
+                      ('huge_threads', 16), ('capacity', 24)],
             'thorough': [('frag', 200000), ('sweep', 20000),
-                         ('threads', 12000), ('huge_threads', 1500)]},
+                         ('threads', 12000), ('huge_threads', 1500),
+                         ('capacity', 800)]},
     'C08': {'quick': [('corrupt', 10000), ('random', 1500), ('frag', 800),
                       ('long', 300), ('truncsweep', 400), ('bytesweep', 150),
-                      ('fieldsweep', 120)],
+                      ('fieldsweep', 120), ('soak', 16), ('capacity', 24)],
             'thorough': [('corrupt', 250000), ('random', 30000),
                          ('frag', 10000), ('long', 8000),
                          ('truncsweep', 12000), ('bytesweep', 3000),
-                         ('fieldsweep', 3000)]},
+                         ('fieldsweep', 3000), ('soak', 400),
+                         ('capacity', 800)]},
     'C09': {'quick': [('corrupt', 12000), ('random', 2000), ('long', 500),
                       ('truncsweep', 400), ('bytesweep', 150),
                       ('fieldsweep', 120), ('threads', 600),
-                      ('long_threads', 400), ('huge_threads', 16)],
+                      ('long_threads', 400), ('huge_threads', 16),
+                      ('capacity', 24)],
             'thorough': [('corrupt', 300000), ('random', 40000),
                          ('long', 12000), ('truncsweep', 12000),
                          ('bytesweep', 3000), ('fieldsweep', 3000),
                          ('threads', 15000), ('long_threads', 6000),
-                         ('huge_threads', 1500)]},
-    'C20': {'quick': [('frag', 7000), ('corrupt', 3000), ('random', 2500), ('threads', 400)],
+                         ('huge_threads', 1500), ('capacity', 800)]},
+    'C20': {'quick': [('frag', 7000), ('corrupt', 3000), ('random', 2500),
+                      ('threads', 400), ('capacity', 16)],
             'thorough': [('frag', 180000), ('corrupt', 60000),
-                         ('random', 60000), ('threads', 12000)]},
+                         ('random', 60000), ('threads', 12000),
+                         ('capacity', 500)]},
 }
 
 LEVEL = {'C06': 'exploration', 'C07': 'fault_enumeration',
@@ -221,6 +227,26 @@ def shrink(check, trace, cls, vbuf=None, max_execs=2000, max_wall=None):
             cur['conns'][0]['frames'][0]['b'] = bytes(raw).hex()
             return cur, state['n'], True
 
+    if cur.get('population') == 'soak':
+        # shorter history, fewer kinds
+        sp = cur['soak']
+        while sp['n'] > 500:
+            c2 = dict(cur, soak=dict(sp, n=sp['n'] // 2))
+            if not bad(c2):
+                break
+            cur, sp = c2, c2['soak']
+        for k in sorted(sp['weights']):
+            if sp['weights'][k]:
+                w2 = dict(sp['weights'])
+                w2[k] = 0
+                c2 = dict(cur, soak=dict(sp, weights=w2))
+                if any(w2.values()) and bad(c2):
+                    cur, sp = c2, c2['soak']
+        return cur, state['n'], True
+    if cur.get('tail'):
+        c2 = dict(cur, tail=0)
+        if bad(c2):
+            cur = c2
     progress = True
     while progress and state['n'] < max_execs and \
             time.time() - state['t0'] < max_wall:
